@@ -143,7 +143,8 @@ def run(tier: str, seed: int) -> Result:
     # client level: the callback given at connect time (per start_connection/connect call) - explored with the C19 client harness
     from . import c19
 
-    cl_seeds = [("start", "tcp_ok", "finish", "hello"), ("connect", "tcp_ok", "hello"), ("start", "tcp_ok"), ()]
+    cl_seeds = [("start", "tcp_ok", "finish", "hello"), ("connect", "tcp_ok", "hello"), ("start", "tcp_ok"), (),
+                ("@early-client", "start", "tcp_ok", "finish", "hello")]
     client_execs = 0
     for i, sd in enumerate(cl_seeds):
         depth, bound = (3, 1) if tier == "quick" else (5, 2)
